@@ -24,9 +24,9 @@ TARGET = "target-ключ-é"
 
 OPS = ["write", "write_existing_content", "write_hash", "writer_session", "writer_session_mmap", "read", "read_hash", "stream", "copy", "copy_hash", "hard_link", "metadata", "list",
        "remove", "remove_hash", "remove_fully", "clear", "exists", "link_to", "link_to_hash",
-       "writer_rejected_short", "writer_rejected_overflow"]
+       "writer_rejected_short", "writer_rejected_overflow", "writer_session_retrying"]
 REJECTED = ("writer_rejected_short", "writer_rejected_overflow")   # a clean run of these ends with SizeMismatch (memory-mapped temp file cut / left)
-WRITES = ("write", "write_existing_content", "write_hash", "writer_session", "writer_session_mmap", "remove", "remove_hash", "remove_fully", "link_to", "link_to_hash")
+WRITES = ("write", "write_existing_content", "write_hash", "writer_session", "writer_session_mmap", "writer_session_retrying", "remove", "remove_hash", "remove_fully", "link_to", "link_to_hash")
 
 
 def sri(v):
@@ -57,6 +57,11 @@ def program(op, cache, dest, side):
         return [{"op": ("sw_" if s else "aw_") + "open", "cache": cache, "key": TARGET, "opts": opts},
                 {"op": "w_write_all", "h": h, "data": {"gen": [NEW["n"], NEW["tag"], 0, 10]}},
                 {"op": "w_write_all", "h": h, "data": {"gen": [NEW["n"], NEW["tag"], 10, NEW["n"] - 10]}}, {"op": "w_commit", "h": h}]
+    if op == "writer_session_retrying":
+        # a caller that offers the unaccepted bytes again after a short or failed write() on the same handle, then commits
+        h = {"ref": 0}
+        return [{"op": ("sw_" if s else "aw_") + "open", "cache": cache, "key": TARGET, "opts": {"time": "77"}},
+                {"op": "w_write_all_retrying", "h": h, "data": {"gen": [NEW["n"], NEW["tag"]]}}, {"op": "w_commit", "h": h}]
     if op in REJECTED:
         # declared size (memory-mapped temp file) that the writer misses: fewer bytes / more bytes in a later chunk
         opts = {"time": "78", "size": NEW["n"] + 5 if op.endswith("short") else NEW["n"] - 4}
@@ -114,7 +119,7 @@ def new_models(op, old, window):
     """Candidate post-states when the operation took (full or partial) effect."""
     d = ref.gen(NEW["n"], NEW["tag"])
     out = []
-    if op in ("write", "writer_session", "writer_session_mmap", "link_to"):
+    if op in ("write", "writer_session", "writer_session_mmap", "writer_session_retrying", "link_to"):
         mid = old.clone()
         mid.content[sri(NEW)] = d
         new = old.clone()
